@@ -34,6 +34,18 @@ PY
 for c in kani/*/; do
   n=$(basename "$c")
   cp -n /repo/Cargo.lock "$c/Cargo.lock" 2>/dev/null || true
-  (cd "$c" && cargo kani --only-codegen --target-dir "$PWD/../../.cache/kani-target-$n" >/dev/null 2>&1) || echo "kani warm-up of $n failed (the check will rebuild)"
+  fl=""; [ "$n" = jsstr ] && fl="--cap-lints warn"     # same RUSTFLAGS as lib/kani_run.py uses for that crate
+  (cd "$c" && RUSTFLAGS="$fl" cargo kani --only-codegen --target-dir "$PWD/../../.cache/kani-target-$n" >/dev/null 2>&1) || echo "kani warm-up of $n failed (the check will rebuild)"
 done
+# warm the dynamic_load+ssr crate of C17 (its own target directory)
+/opt/veriftools/pyvenv/bin/python3 - <<'PY'
+import sys, os
+sys.path.insert(0, os.path.join(os.getcwd(), "lib"))
+import c17
+try:
+    c17.setup_crate(os.path.join(os.getcwd(), "work", "warmup"), "    request(0, || vec![on(td_string!(Locale::en, k, x = \"up\"))]);")
+    print(c17.run_crate()[1])
+except Exception as e:
+    print("C17 crate warm-up failed (the check will rebuild):", e)
+PY
 echo setup done
